@@ -106,7 +106,7 @@ Definition stdIo (o : op) (args : list Q) : option Q :=
   | OPow, [a; b] =>
       if is_int b then
         if Qzero a && Z.ltb (to_int b) 0 then None
-        else if Z.ltb 64 (Z.abs (to_int b)) then None
+        else if Z.ltb 4000 (Z.abs (to_int b)) then None
         else if pow_too_big a (to_int b) then None
         else Some (Qred (Qpower a (to_int b)))
       else
